@@ -142,6 +142,7 @@ PROPS = {
         "A probe succeeds only on genuine evidence; indirect probing is routed correctly",
         {
             "success only on an Ack of the current number from the probed member or a ForwardedAck from an asked, not yet counted helper": "theorem (full): succeeded_iff, ack_counts_only_from_target, ack_changes_only_the_flag, forwarded_ack_counts_only_from_asked, failed_only_without_evidence, start_resets_evidence (over the generated Probe::succeeded)",
+            "a round ends without suspicion only if evidence arrived since it started, over whole histories": "theorem (full): C12H.round_answered_only_on_evidence — from the start of a round for m under number N, over any history of public calls (any bytes, batches, timers incl. further probe timers, API calls, identity changes, RNG draws): if the probe still targets m under N and take_failed has nobody to suspect, one of the calls in between delivered a datagram whose header is an Ack numbered N from m or a ForwardedAck numbered N; C12H.no_evidence_step / no_evidence_history (invariant NoEv); Proofs/ComposeQ.lean (probe-aware composition with the two evidence writes as hypotheses about the header being handled), Proofs/EvidenceInv.lean; worked example: member learnt, probe timer, Ack",
             "indirect requests: only without Ack, at most num_indirect_probes, distinct... active members, never the target": "theorem (full): indirect_helpers, indirect_timer_guards ('distinct' follows from one-record-per-address, C09)",
             "Ping answered with Ack of the same number; relay preserves origin, target and number; requests naming the instance rejected": "theorem (full): ping_is_acked, ping_req_is_relayed, indirect_ping_is_answered, indirect_ack_is_forwarded, relay_for_ourselves_is_rejected",
             "failed round: probed member becomes Suspect and exactly one suspicion timeout is scheduled": "theorem (full): failed_round_schedules_exactly_one_timeout (exactly one ChangeSuspectToDown for that identity, incarnation and epoch, also when the member was already Suspect), unanswered_member_becomes_suspect, refuted_member_is_left_alone, failed_round_forgotten_member; that a round without evidence is what take_failed reports: failed_only_without_evidence",
@@ -248,6 +249,7 @@ PROPS = {
         {
             "a higher header incarnation refutes the suspicion at the receiver; the pending timeout then does nothing (no TurnUndead since the fix for F2)": "theorem (full): higher_incarnation_refutes_at_receiver, refuted_timeout_does_nothing, C11.cancelled_timeout_is_noop",
             "the suspected member bumps its incarnation strictly above the suspicion; a suspicion needs the current incarnation": "theorem (full): suspected_member_bumps_incarnation, suspicion_needs_current_incarnation",
+            "a refuted suspicion never takes effect, over whole histories": "theorem (full): C04H.refuted_suspicion_never_takes_effect — from any reachable state in which x is recorded above the suspected incarnation i, over any history of public calls without the forget-timer of that address (stale gossip at or below i, repeated suspicions, any bytes, any RNG): every record bearing x stays above i or Down, and the timeout for (x, i), whenever and however often it fires, leaves the member list as it is, applies nothing and changes nobody's activity; C04H.refutation_is_final(_step), timeout_past_record; Proofs/RefInv.lean",
             "no MemberDown/Defunct/Rejoin anywhere and re-convergence after any single drop": "partial: real-time race between refutation and timeout explored by the simulator (every datagram index in a window, n = 2..6, notify_down_members on/off, renewable or not)",
         },
         "search: simulator, formed cluster, exactly one datagram (by send serial number, any kind) dropped in a window after warm-up; oracle: no MemberDown/Defunct/Rejoin afterwards and everybody lists everybody Alive at the horizon. " + RULE_HIST,
